@@ -65,6 +65,8 @@ def make(ck, rnd, n):
         T2 = rnd.choice([2 * wrec.INF, 2 * rnd.randint(0, 20), 2 * rnd.randint(0, 20) + 1, 2 * rnd.randint(0, 12)])
         actrl = wsim.rand_actrl(rnd, c).tolist() if rnd.random() < 0.7 else None
         percap = [rnd.choice([4, 8, 16]) for _ in range(len(c.lines) + 3)]
+        if rnd.random() < 0.4:      # small capacities exactly on the lines whose INDEX is a port / state-element position
+            percap = [4 if x < len(c.s_nodes) else 16 for x in range(len(c.lines) + 3)]
         mt = dict(strip=strip, circuit=gen.circuit_state(c), lanes=lanes, delays=d.tolist(), caps=rnd.choice([4, 4, 8, percap]), inw=wrec.rand_inputs(rnd, c, lanes, multi=True, tmax=40 if parity else 12),
                   cls=rnd.choice(['WaveSim', 'WaveSimCuda']), T2=T2, actrl=actrl, warm=wrec.rand_inputs(rnd, c, lanes, multi=True, tmax=12) if rnd.random() < 0.4 else None)
         mt['desc'] = '%s caps=%s strip=%s T=%s actrl=%s' % (mt['cls'], mt['caps'] if isinstance(mt['caps'], int) else 'per-line', strip, 'TMAX' if T2 >= 2 * wrec.INF else T2 / 2, actrl is not None)
@@ -87,7 +89,7 @@ def main(tier=None, replay=None):
             wrec.judge(ck, [build(mt)], [mt], (PID,))
         return ck.finish('replay')
     kernel.run(ck, rnd, (PID,), design=True)
-    recs, metas = make(ck, rnd, ck.pick(160, 1600))
+    recs, metas = make(ck, rnd, ck.pick(280, 1600))
     wrec.judge(ck, recs, metas, (PID,))
     ck.count('overflowed-ports', sum(1 for x in recs for row in x['s'] for v in row if v[5]))
     ck.count('clear-ports', sum(1 for x in recs for row in x['s'] for v in row if not v[5]))
